@@ -18,6 +18,7 @@ CLASSES = {"OrderedMultiDict": OrderedMultiDict, "PVLModule": PVLModule,
            "PVLGroup": PVLGroup, "PVLObject": PVLObject}
 
 KEYS = ["a", "b", "c", "d"]
+OP_STEP_BUDGET = 200000     # line events inside pvl per container operation
 SENT = object()
 
 
@@ -233,7 +234,7 @@ class Machine:
             if i is None or self.reg[i][0] is not rv:
                 raise Problem("foreign-object",
                               "container holds an object the history never "
-                              "put there: %r" % (rv,))
+                              "put there: %s" % (core.short(rv),))
             return self.reg[i][1]
         if isinstance(rv, list):
             return tuple(self.model_of(x) for x in rv)
@@ -259,8 +260,8 @@ class Machine:
             and self.same(g[1], e[1]) for g, e in zip(got, exp))
         if not ok:
             return self.fail(
-                "list-mismatch", "%s iteration shows %r, model list is %r"
-                % (tag, got, exp))
+                "list-mismatch", "%s iteration shows %s, model list is %r"
+                % (tag, core.short(got), exp))
         if len(real) != n:
             return self.fail("view-disagreement",
                              "%s len()=%d, list has %d" % (tag, len(real), n))
@@ -282,7 +283,8 @@ class Machine:
     def _check_views(self, real, mc, exp, n, tag):
         def bad(what, got=None):
             raise Problem("view-disagreement",
-                          "%s %s -> %r; list is %r" % (tag, what, got, exp))
+                          "%s %s -> %s; list is %r" % (tag, what,
+                                                      core.short(got), exp))
         # integer and slice indexing of the container
         for i in range(-n, n):
             g = real[i]
@@ -327,9 +329,10 @@ class Machine:
             if k not in kv:
                 bad("%r in keys()" % k, False)
             if not isinstance(v, MC):
-                if v not in vv:
+                rv = lv[i]      # the real value at that place
+                if rv not in vv:
                     bad("%r in values()" % (v,), False)
-                if (k, v) not in iv:
+                if (k, rv) not in iv:
                     bad("(%r, %r) in items()" % (k, v), False)
         # mapping side
         present = set(k for k, _ in exp)
@@ -465,10 +468,18 @@ class Machine:
         except KeyError:
             return "skipped"        # dangling reference after shrinking
         before = list(mc.items) if expect[0] != "ret" else None
+        core.METER.begin(OP_STEP_BUDGET)
         try:
             got = ("ret", call())
         except Exception as e:      # noqa: BLE001 - outcome is data here
             got = ("raise", e)
+        except core.SimStall:
+            core.METER.end()
+            self.fail("stall", "%r did not finish within %d line events "
+                      "(at %s)" % (op, OP_STEP_BUDGET, core.METER.where))
+            return "stall"
+        finally:
+            core.METER.end()
         status = "ok"
         if expect[0] == "ret":
             if got[0] == "raise":
@@ -476,14 +487,14 @@ class Machine:
                           "%s on %r raised %s: %s" %
                           (name, op, type(got[1]).__name__, got[1]))
             elif not self.same_ret(got[1], expect[1]):
-                self.fail("wrong-return-value", "%r returned %r, model says "
-                          "%r" % (op, got[1], expect[1]))
+                self.fail("wrong-return-value", "%r returned %s, model says "
+                          "%r" % (op, core.short(got[1]), expect[1]))
         elif expect[0] == "raise":
             status = "failed-op"
             mc.items[:] = before
             if got[0] == "ret":
-                self.fail("missing-exception", "%r returned %r, model says "
-                          "it raises %s" % (op, got[1], "/".join(
+                self.fail("missing-exception", "%r returned %s, model says "
+                          "it raises %s" % (op, core.short(got[1]), "/".join(
                               t.__name__ for t in expect[1])))
             elif not isinstance(got[1], expect[1]):
                 self.fail("wrong-exception-type", "%r raised %s, model says "
@@ -493,8 +504,8 @@ class Machine:
             status = "failed-op"
             if got[0] == "ret":
                 self.fail("missing-exception",
-                          "%r with a malformed argument returned %r" %
-                          (op, got[1]))
+                          "%r with a malformed argument returned %s" %
+                          (op, core.short(got[1])))
             self.resync(cid)
         if not self.problems:
             self.check_all()
@@ -693,14 +704,14 @@ class Machine:
             return
         seen.add(mc.id)
         if not isinstance(real, OrderedMultiDict):
-            raise Problem("copy-structure", "copy holds %r where a "
-                          "container is expected" % (real,))
+            raise Problem("copy-structure", "copy holds %s where a "
+                          "container is expected" % (core.short(real),))
         self.register(mc.id, real, mc)
         ritems = list(real)
         if len(ritems) != len(mc.items):
             raise Problem("copy-structure", "copy has %d items, original "
-                          "has %d: %r" % (len(ritems), len(mc.items),
-                                          ritems))
+                          "has %d: %s" % (len(ritems), len(mc.items),
+                                          core.short(ritems)))
         for (rk, rv), (mk, mv) in zip(ritems, mc.items):
             if isinstance(mv, MC):
                 self.register_deep(rv, mv, seen)
@@ -746,8 +757,8 @@ class Machine:
         if not self.problems:
             try:
                 if not (c == real and real == c) or c != real:
-                    self.fail("copy-not-equal", "%s: copy %r != original %r"
-                              % (mech, c, real))
+                    self.fail("copy-not-equal", "%s: copy %s != original %s"
+                              % (mech, core.short(c), core.short(real)))
                 if core.canon(c) != before:
                     self.fail("copy-not-equal", "%s: copy has canonical "
                               "form %r, original %r" %
